@@ -111,7 +111,7 @@ def insertFile (pol : UInt8) (buf : Bytes) (alignedOffset : Nat) (fBuf : Bytes) 
     file buffer `fileBuf` with attribute byte `attrs`; returns the new buffer and `fileOffset` -/
 def placeFile (pol : UInt8) (buf : Bytes) (fileOffset : Nat) (attrs : Nat) (fileBuf : Bytes) :
     Except Err (Bytes × Nat) :=
-  if fileBuf.length = 0 then .error .fatal else
+  if fileBuf.length = 0 then .error .err else    -- repaired (fixes/C05-assemble-empty-file): an error, not log.Fatalf
   let alignedOffset := align8 fileOffset
   let alignBase := alignmentOf attrs
   if alignBase ≠ 1 then
@@ -200,8 +200,8 @@ def relayoutFv (i : FvInfo) (buf : Bytes) (files : List File) (st : St) : Except
   if i.length < buf.length then .error .err else
   -- fixes/C05-assemble-empty-blockmap.diff: a volume with files needs a block map (`f.Blocks[0]`)
   if i.blocks.isEmpty then .error .err else
-  -- (Q) `fBuf[:DataOffset]` faults when the buffer is shorter
-  if i.dataOffset > buf.length then .error .panic else
+  -- repaired (fixes/C05-assemble-dataoffset): a data offset beyond the buffer is an error, not a slice panic
+  if i.dataOffset > buf.length then .error .err else
   match placeFiles st.pol (files.map (fun f => (f.info.attrs, f.buf))) (buf.take i.dataOffset) i.dataOffset with
   | .error e => .error e
   | .ok fbuf => finishFv i fbuf st
